@@ -125,6 +125,10 @@ package gorm
 //@   modifies stmt.DB.Error
 //@   ensures len(result) == 0 || fresh(result)
 
+//@ func (*Statement).Parse (*Statement).ParseWithSpecialTableName
+//@   trusted parses the model type through the schema cache (reflection); of the statement it writes Schema, Table and TableExpr only
+//@   modifies stmt.Schema, stmt.Table, stmt.TableExpr
+
 //@ func (*Statement).Quote
 //@   trusted quotes through the dialect into a local strings.Builder
 //@   pure
